@@ -3,6 +3,16 @@
 //! and reopen; one protocol line per operation for the Lean model (`c10 ...`, logical paths
 //! instead of addresses) and an independent oracle: a logical forest with explicit multiset
 //! reference counting (plain Rust, not derived from the model).
+//!
+//! T2 (C14 "node reference counts equal the number of referencing parents"): whenever the handle is
+//! quiescent (after an `enact` that leaves nothing queued or logged, after every reopen, at drain
+//! points drawn from a separate random stream, after the final drain and the final reopen) the
+//! node forest is dumped through the hook `Db::verif_multitree_dump` (live slots, children decoded
+//! by the crate, roots, ref-count tables and cache) and sent as one op line `t2rc ...` to the Lean
+//! dump checker (Pdb/Model/DumpCheckRc.lean, expected answer `ok`); the same dump is compared with
+//! the forest oracle (`dump_matches_forest`: same roots, addresses, children, counts).  c02x.rs uses
+//! the same functions after every crash recovery, with the slots predicted to leak (finding F19)
+//! as the checker's allowed orphans.
 use crate::util::*;
 use parity_db::{ColumnOptions, CompressionType, Db, NewNode, NodeRef, Operation, Options};
 use std::collections::{BTreeMap, HashMap};
@@ -721,6 +731,265 @@ impl<'a> Case<'a> {
 	}
 }
 
+// ------------------------------------------------------------------------------------------
+// T2 for the node forest (C14 "node reference counts equal the number of referencing parents"):
+// the hook dump of a quiescent multitree column, rendered as the op line `t2rc ...` of the Lean
+// dump checker (Pdb/Model/DumpCheckRc.lean; expected answer `ok`), plus an independent
+// comparison of the same dump with the forest oracle.
+
+#[derive(Default)]
+pub(crate) struct RcDumpStats {
+	pub(crate) roots: usize,
+	pub(crate) nodes: usize,
+	pub(crate) undecodable: usize,
+	pub(crate) edges: usize,
+	pub(crate) rc_entries: usize,
+	pub(crate) max_count: u64,
+	pub(crate) max_fan: usize,
+}
+
+/// `t2rc <has_rc> <ref_counted> {R addr count child*}* {N addr child*}* [X addr*] [C {addr count}*]
+/// [M {addr count}*] [A addr*]`; `allowed` = addresses predicted to be leaked (finding F19).
+pub(crate) fn t2rc_line(d: &parity_db::verif::MultiTreeDump, allowed: &[u64]) -> (String, RcDumpStats) {
+	use std::fmt::Write;
+	let mut st = RcDumpStats::default();
+	let mut s = format!("t2rc {} {}", d.has_ref_count_table as u8, d.ref_counted as u8);
+	let mut bad: Vec<u64> = vec![];
+	for (_key, addr, rc, children) in &d.roots {
+		match children {
+			Some(cs) => {
+				write!(s, " R {} {}", addr, rc).unwrap();
+				for c in cs {
+					write!(s, " {}", c).unwrap();
+				}
+				st.roots += 1;
+				st.edges += cs.len();
+				st.max_fan = std::cmp::max(st.max_fan, cs.len());
+			},
+			None => bad.push(*addr),
+		}
+	}
+	for (addr, children) in &d.nodes {
+		match children {
+			Some(cs) => {
+				write!(s, " N {}", addr).unwrap();
+				for c in cs {
+					write!(s, " {}", c).unwrap();
+				}
+				st.nodes += 1;
+				st.edges += cs.len();
+				st.max_fan = std::cmp::max(st.max_fan, cs.len());
+			},
+			None => bad.push(*addr),
+		}
+	}
+	st.undecodable = bad.len();
+	if !bad.is_empty() {
+		s.push_str(" X");
+		for a in &bad {
+			write!(s, " {}", a).unwrap();
+		}
+	}
+	if d.ref_count_tables.iter().any(|t| !t.1.is_empty()) {
+		s.push_str(" C");
+		for (_bits, entries) in &d.ref_count_tables {
+			for (a, c) in entries {
+				write!(s, " {} {}", a, c).unwrap();
+				st.rc_entries += 1;
+				st.max_count = std::cmp::max(st.max_count, *c);
+			}
+		}
+	}
+	if let Some(cache) = &d.ref_count_cache {
+		if !cache.is_empty() {
+			s.push_str(" M");
+			for (a, c) in cache {
+				write!(s, " {} {}", a, c).unwrap();
+			}
+		}
+	}
+	if !allowed.is_empty() {
+		s.push_str(" A");
+		for a in allowed {
+			write!(s, " {}", a).unwrap();
+		}
+	}
+	(s, st)
+}
+
+pub(crate) fn t2rc_count(ctr: &mut Counters, at: &str, d: &parity_db::verif::MultiTreeDump, st: &RcDumpStats, allowed: usize) {
+	ctr.inc("t2rc.dumps");
+	ctr.inc(&format!("t2rc.at.{}", at));
+	ctr.inc(&format!(
+		"t2rc.column.{}",
+		if !d.has_ref_count_table { "append_only" } else if d.ref_counted { "rc" } else { "plain" }
+	));
+	ctr.add("t2rc.roots", st.roots as u64);
+	ctr.add("t2rc.nodes", st.nodes as u64);
+	ctr.add("t2rc.edges", st.edges as u64);
+	ctr.add("t2rc.rc_entries", st.rc_entries as u64);
+	ctr.add("t2rc.undecodable_slots", st.undecodable as u64);
+	ctr.add("t2rc.allowed_orphans", allowed as u64);
+	ctr.inc(&format!("t2rc.size.nodes.{}", match st.nodes { 0 => "0", 1..=10 => "1-10", 11..=100 => "11-100", 101..=1000 => "101-1000", _ => "1000+" }));
+	ctr.inc(&format!("t2rc.size.rc_entries.{}", match st.rc_entries { 0 => "0", 1..=3 => "1-3", 4..=20 => "4-20", _ => "21+" }));
+	ctr.inc(&format!("t2rc.max_count.{}", match st.max_count { 0 => "none", 2 => "2", 3..=5 => "3-5", _ => "6+" }));
+	ctr.inc(&format!("t2rc.max_fan.{}", fan_class(st.max_fan)));
+	if d.ref_count_tables.len() > 1 {
+		ctr.inc("t2rc.with_queued_rc_table");
+	}
+}
+
+/// Independent oracle for a quiescent dump of column `col`: the dumped forest IS the oracle's
+/// forest (same roots under the same hashed keys with the same counts, same node addresses,
+/// same children in the same order), the ref-count table holds exactly the oracle's counts
+/// > 1 and equals the cache.  `leaked`: node slots known to be lost for good (finding F19).
+pub(crate) fn dump_matches_forest(
+	db: &Db,
+	col: u8,
+	d: &parity_db::verif::MultiTreeDump,
+	forest: &Forest,
+	counting: bool,
+	rc_roots: bool,
+	leaked: &[u64],
+) -> Result<(), String> {
+	use std::collections::{BTreeMap, BTreeSet};
+	if d.has_ref_count_table != counting {
+		return Err(format!("ref-count table present={} but the column counts references={}", d.has_ref_count_table, counting))
+	}
+	let addr_of = |id: &usize| forest.nodes.get(id).and_then(|n| n.addr).unwrap_or(u64::MAX);
+	// roots
+	let mut exp_roots: BTreeMap<[u8; 32], (&Vec<u8>, &ORoot)> = BTreeMap::new();
+	for (k, r) in &forest.roots {
+		let hk = db.verif_hash_key(col, k).ok_or("not a hash column")?;
+		exp_roots.insert(hk, (k, r));
+	}
+	if d.roots.len() != exp_roots.len() {
+		return Err(format!("{} root entries dumped, the oracle has {} live roots", d.roots.len(), exp_roots.len()))
+	}
+	for (key, addr, rc, children) in &d.roots {
+		let (k, r) = exp_roots.get(key).ok_or_else(|| format!("dumped root entry at {} has a key no live root has: {}", addr, hex(key)))?;
+		let exp_children: Vec<u64> = r.children.iter().map(addr_of).collect();
+		if children.as_ref() != Some(&exp_children) {
+			return Err(format!("root {}: children {:?}, the oracle expects {:?}", hex(k), children, exp_children))
+		}
+		let exp_rc = if rc_roots { r.count } else { 1 };
+		if *rc as u64 != exp_rc {
+			return Err(format!("root {}: stored count {}, the oracle expects {}", hex(k), rc, exp_rc))
+		}
+	}
+	// nodes
+	let leaked: BTreeSet<u64> = leaked.iter().cloned().collect();
+	let mut dumped: BTreeMap<u64, &Option<Vec<u64>>> = BTreeMap::new();
+	for (a, cs) in &d.nodes {
+		if leaked.contains(a) {
+			continue
+		}
+		if dumped.insert(*a, cs).is_some() {
+			return Err(format!("node address {} dumped twice", a))
+		}
+	}
+	if dumped.len() != forest.nodes.len() {
+		return Err(format!("{} live node slots dumped (beyond known leaked ones), the oracle has {} live nodes", dumped.len(), forest.nodes.len()))
+	}
+	for (id, n) in &forest.nodes {
+		let a = n.addr.ok_or_else(|| format!("oracle node {} has no address", id))?;
+		let exp_children: Vec<u64> = n.children.iter().map(addr_of).collect();
+		match dumped.get(&a) {
+			None => return Err(format!("live node at address {} is not among the dumped node slots", a)),
+			Some(cs) =>
+				if cs.as_ref() != Some(&exp_children) {
+					return Err(format!("node at {}: children {:?}, the oracle expects {:?}", a, cs, exp_children))
+				},
+		}
+	}
+	// counts: first hit in search order
+	let mut table: BTreeMap<u64, u64> = BTreeMap::new();
+	for (_bits, entries) in &d.ref_count_tables {
+		for (a, c) in entries {
+			table.entry(*a).or_insert(*c);
+		}
+	}
+	let mut exp_table: BTreeMap<u64, u64> = BTreeMap::new();
+	if counting {
+		for n in forest.nodes.values() {
+			if n.refs > 1 {
+				exp_table.insert(n.addr.unwrap_or(u64::MAX), n.refs);
+			}
+		}
+	}
+	if table != exp_table {
+		return Err(format!("ref-count table {:?}, the oracle's counts > 1 are {:?}", table, exp_table))
+	}
+	match (&d.ref_count_cache, counting) {
+		(None, false) => {},
+		(Some(cache), true) => {
+			let cache: BTreeMap<u64, u64> = cache.iter().cloned().collect();
+			if cache != table {
+				return Err(format!("ref-count cache {:?} differs from the table {:?}", cache, table))
+			}
+		},
+		(c, _) => return Err(format!("ref-count cache present={} on a column that counts={}", c.is_some(), counting)),
+	}
+	Ok(())
+}
+
+impl<'a> Case<'a> {
+	fn quiescent(&self) -> bool {
+		self.sut.queued == 0 && self.sut.logged == 0 && self.sut.flushed == 0 && self.sut.unread_files == 0
+	}
+
+	/// At a quiescent point (everything committed is in the table files): dump the forest, one
+	/// `t2rc` line for the Lean checker, the same dump against the oracle.
+	fn check_rc_dump(&mut self, at: &str) {
+		if !self.quiescent() {
+			return
+		}
+		let d = match self.sut.db().verif_multitree_dump(0) {
+			Ok(Some(d)) => d,
+			Ok(None) => {
+				self.fail("verif_multitree_dump: not a multitree column");
+				return
+			},
+			Err(e) => {
+				self.fail(&format!("verif_multitree_dump failed: {:?}", e));
+				return
+			},
+		};
+		let (line, st) = t2rc_line(&d, &[]);
+		self.t.op(&line, "ok");
+		t2rc_count(self.ctr, at, &d, &st, 0);
+		let counting = self.sut.v != Variant::AppendOnly;
+		if let Err(e) = dump_matches_forest(self.sut.db(), 0, &d, &self.forest, counting, self.sut.v == Variant::Rc, &[]) {
+			self.fail(&format!("structural dump ({}) differs from the oracle forest: {}", at, e));
+		} else {
+			self.ctr.inc("t2rc.oracle_forest_equal");
+		}
+	}
+
+	/// process everything queued, flush, enact: with one model line per step
+	fn drain_traced(&mut self) {
+		while self.sut.queued > 0 && self.ok {
+			let r = self.sut.process();
+			self.t.op("c10 process", &res(&r));
+			if let Err(e) = r {
+				self.fail(&format!("process_commits failed: {:?}", e));
+				return
+			}
+		}
+		let r = self.sut.flush();
+		self.t.op("c10 flush", &res(&r));
+		if let Err(e) = r {
+			self.fail(&format!("flush_logs failed: {:?}", e));
+			return
+		}
+		let r = self.sut.enact_all();
+		self.t.op("c10 enact", &res(&r));
+		if let Err(e) = r {
+			self.fail(&format!("enact_logs failed: {:?}", e));
+		}
+	}
+}
+
 fn clip(s: &str) -> String {
 	if s.len() > 300 {
 		format!("{}...[{} bytes]", &s[..300], s.len())
@@ -742,6 +1011,8 @@ fn gen_key(rng: &mut Rng, i: u64) -> Vec<u8> {
 
 pub fn run_case(seed: u64, thorough: bool, root: &Path, t: &mut Trace, ctr: &mut Counters, prop: &str) -> bool {
 	let mut rng = Rng::new(seed);
+	// separate stream for the drain points added for the structural dumps (t2rc)
+	let mut rng_dump = Rng::new(seed ^ 0x7432_7263);
 	let v = *rng.pick(&[Variant::AppendOnly, Variant::Rc, Variant::Rc, Variant::Plain, Variant::Plain]);
 	let mut salt = [0u8; 32];
 	for i in 0..4 {
@@ -1002,6 +1273,7 @@ pub fn run_case(seed: u64, thorough: bool, root: &Path, t: &mut Trace, ctr: &mut
 				c.fail(&format!("enact_logs failed: {:?}", e));
 				break
 			}
+			c.check_rc_dump("enact");
 		} else if a < 88 {
 			let r = c.sut.clean();
 			c.t.op("c10 clean", &res(&r));
@@ -1019,6 +1291,7 @@ pub fn run_case(seed: u64, thorough: bool, root: &Path, t: &mut Trace, ctr: &mut
 				c.check_tree(k);
 			}
 			c.check_count();
+			c.check_rc_dump("reopen");
 		} else {
 			// reads
 			let key = rng.pick(&keys).clone();
@@ -1043,6 +1316,14 @@ pub fn run_case(seed: u64, thorough: bool, root: &Path, t: &mut Trace, ctr: &mut
 		}
 		if !c.ok {
 			break
+		}
+		if rng_dump.chance(1, 9) {
+			// drain point: the forest on disk must be exactly the oracle's forest
+			c.drain_traced();
+			c.check_rc_dump("drain");
+			if !c.ok {
+				break
+			}
 		}
 	}
 
@@ -1101,6 +1382,8 @@ pub fn run_case(seed: u64, thorough: bool, root: &Path, t: &mut Trace, ctr: &mut
 		let r = c.sut.drain();
 		if let Err(e) = r {
 			c.fail(&format!("drain failed: {:?}", e));
+		} else {
+			c.check_rc_dump("final_drain");
 		}
 		let r = c.sut.reopen();
 		c.t.op("c10 reopen", &res(&r));
@@ -1111,6 +1394,7 @@ pub fn run_case(seed: u64, thorough: bool, root: &Path, t: &mut Trace, ctr: &mut
 				c.check_tree(k);
 			}
 			c.check_count();
+			c.check_rc_dump("final_reopen");
 		}
 	}
 	if c.ok && v == Variant::Plain && seed % 4 == 0 {
@@ -1144,6 +1428,18 @@ pub fn run_case(seed: u64, thorough: bool, root: &Path, t: &mut Trace, ctr: &mut
 					before,
 					after
 				));
+			}
+		}
+	}
+	if !c.ok && c.sut.db.is_some() {
+		// post mortem of a failed case: what does the Lean checker say about the forest the
+		// failure left behind?  (expected `ok`: a `bad:` shows up as a model disagreement next to
+		// the oracle failure; no oracle comparison, the oracle is off already)
+		if c.sut.drain().is_ok() && c.quiescent() {
+			if let Ok(Some(d)) = c.sut.db().verif_multitree_dump(0) {
+				let (line, st) = t2rc_line(&d, &[]);
+				c.t.op(&line, "ok");
+				t2rc_count(c.ctr, "post_mortem", &d, &st, 0);
 			}
 		}
 	}
